@@ -15,6 +15,8 @@ structure KSt where
   plasma : Plasma := {}
   stake : Stake := {}
   htlc : Htlc := {}
+  pillar : Pillar := {}
+  sentinel : Sentinel := {}
   bals : List (String × Bal) := []       -- per contract
 
 def KSt.bal (s : KSt) (c : String) : Bal := (lookup c s.bals).getD []
@@ -89,6 +91,18 @@ def runHtlc (s : KSt) (n : Names) (m : Method Htlc) (c : Ctx) : KSt × String :=
   let r := vmStep m s.htlc (s.bal "htlc") c
   ({ (s.setBal "htlc" r.bal) with htlc := r.st, names := n }, showResult n r)
 
+def runPillar (s : KSt) (n : Names) (m : Method Pillar) (c : Ctx) : KSt × String :=
+  let r := vmStep m s.pillar (s.bal "pillar") c
+  ({ (s.setBal "pillar" r.bal) with pillar := r.st, names := n }, showResult n r)
+
+def runSentinel (s : KSt) (n : Names) (m : Method Sentinel) (c : Ctx) : KSt × String :=
+  let r := vmStep m s.sentinel (s.bal "sentinel") c
+  ({ (s.setBal "sentinel" r.bal) with sentinel := r.st, names := n }, showResult n r)
+
+/-- pillar names are interned in the same table as hashes, with a prefix that no hash has -/
+def Names.pname (n : Names) (name : String) : Names × Nat := n.hash ("name:" ++ name)
+def Names.pnameOf (n : Names) (i : Nat) : String := ((n.hashes.getD i "name:?").drop 5).toString
+
 def hexVal (c : Char) : Option Nat :=
   if '0' ≤ c ∧ c ≤ '9' then some (c.toNat - '0'.toNat)
   else if 'a' ≤ c ∧ c ≤ 'f' then some (c.toNat - 'a'.toNat + 10)
@@ -141,6 +155,29 @@ def kCall (s : KSt) (n : Names) (h : Head) (args : List String) : Option (KSt ×
     some (runHtlc s n (unlockHtlc H id (← parseHex pre)) h.ctx)
   | "htlc", "DenyProxyUnlock", [] => some (runHtlc s n (setProxyUnlock false) h.ctx)
   | "htlc", "AllowProxyUnlock", [] => some (runHtlc s n (setProxyUnlock true) h.ctx)
+  | "pillar", "DepositQsr", [] => some (runPillar s n pillarDeposit h.ctx)
+  | "pillar", "WithdrawQsr", [] => some (runPillar s n pillarWithdraw h.ctx)
+  | "pillar", "Undelegate", [] => some (runPillar s n undelegate h.ctx)
+  | "pillar", "Register", [name, producer, reward, pb, pd, ok] => do
+    let (n, name) := n.pname name
+    let (n, producer) := n.addr producer
+    let (n, reward) := n.addr reward
+    some (runPillar s n (registerPillar s.P name producer reward (← pb.toNat?) (← pd.toNat?) (← parseBool ok)) h.ctx)
+  | "pillar", "UpdatePillar", [name, producer, reward, pb, pd, ok] => do
+    let (n, name) := n.pname name
+    let (n, producer) := n.addr producer
+    let (n, reward) := n.addr reward
+    some (runPillar s n (updatePillar name producer reward (← pb.toNat?) (← pd.toNat?) (← parseBool ok)) h.ctx)
+  | "pillar", "Revoke", [name, ok] => do
+    let (n, name) := n.pname name
+    some (runPillar s n (revokePillar s.P name (← parseBool ok)) h.ctx)
+  | "pillar", "Delegate", [name, ok] => do
+    let (n, name) := n.pname name
+    some (runPillar s n (delegate name (← parseBool ok)) h.ctx)
+  | "sentinel", "DepositQsr", [] => some (runSentinel s n sentinelDeposit h.ctx)
+  | "sentinel", "WithdrawQsr", [] => some (runSentinel s n sentinelWithdraw h.ctx)
+  | "sentinel", "Register", [] => some (runSentinel s n (registerSentinel s.P) h.ctx)
+  | "sentinel", "Revoke", [] => some (runSentinel s n (revokeSentinel s.P) h.ctx)
   | _, _, _ => none
 
 /-- an unmodelled method (Update, CollectReward, ...): the observed outcome is an input; storage entries are left
@@ -167,6 +204,17 @@ def contractStep (s : KSt) : List String → Option (KSt × String)
   | ["K-init-fused", b, a] => do
     let (n, b) := s.names.addr b
     pure ({ s with names := n, plasma := { s.plasma with fused := put b (← a.toNat?) s.plasma.fused } }, "ok")
+  | ["K-init-pillar", name, stake, a, reg, rev, producer, reward, ty, pb, pd] => do
+    let (n, name) := s.names.pname name
+    let (n, stake) := n.addr stake
+    let (n, producer) := n.addr producer
+    let (n, reward) := n.addr reward
+    let e : PillarE := ⟨stake, ← a.toNat?, ← reg.toInt?, ← rev.toInt?, producer, reward, ← ty.toNat?, ← pb.toNat?, ← pd.toNat?⟩
+    pure ({ s with names := n, pillar := { s.pillar with pillars := put name e s.pillar.pillars, producing := put producer name s.pillar.producing } }, "ok")
+  | ["K-init-deleg", backer, name] =>
+    let (n, backer) := s.names.addr backer
+    let (n, name) := n.pname name
+    some ({ s with names := n, pillar := { s.pillar with delegations := put backer name s.pillar.delegations } }, "ok")
   | "K-call" :: rest => do
     let (n, h, args) ← parseHead s.names rest
     kCall s n h args
@@ -204,6 +252,38 @@ def contractStep (s : KSt) : List String → Option (KSt × String)
     match lookup a s.htlc.proxy with
     | none => some ({ s with names := n }, "none")
     | some v => some ({ s with names := n }, showBool v)
+  | ["K-pillar", name] =>
+    let (n, name) := s.names.pname name
+    match lookup name s.pillar.pillars with
+    | none => some ({ s with names := n }, "none")
+    | some e => some ({ s with names := n },
+        s!"{n.addrName e.stakeAddr} {e.amount} {e.regTime} {e.revokeTime} {n.addrName e.producer} {n.addrName e.reward} {e.ptype} {e.pctBlock} {e.pctDelegate}")
+  | ["K-producing", a] =>
+    let (n, a) := s.names.addr a
+    match lookup a s.pillar.producing with
+    | none => some ({ s with names := n }, "none")
+    | some name => some ({ s with names := n }, n.pnameOf name)
+  | ["K-deleg", a] =>
+    let (n, a) := s.names.addr a
+    match lookup a s.pillar.delegations with
+    | none => some ({ s with names := n }, "none")
+    | some name => some ({ s with names := n }, n.pnameOf name)
+  | ["K-ndeleg"] => some (s, toString s.pillar.delegations.length)
+  | ["K-qsr", c, a] =>
+    let (n, a) := s.names.addr a
+    let d := if c == "pillar" then s.pillar.deposits else s.sentinel.deposits
+    match lookup a d with
+    | none => some ({ s with names := n }, "none")
+    | some v => some ({ s with names := n }, toString v)
+  | ["K-sentinel", a] =>
+    let (n, a) := s.names.addr a
+    match lookup a s.sentinel.entries with
+    | none => some ({ s with names := n }, "none")
+    | some e => some ({ s with names := n }, s!"{e.regTime} {e.revokeTime} {e.znn} {e.qsr}")
+  | ["K-digest", "pillar"] => some (s, s!"{s.pillar.pillars.length} {total (·.amount) s.pillar.pillars}")
+  | ["K-digest", "qsr-pillar"] => some (s, s!"{s.pillar.deposits.length} {depositsTotal s.pillar.deposits}")
+  | ["K-digest", "sentinel"] => some (s, s!"{s.sentinel.entries.length} {total (·.znn) s.sentinel.entries} {total (·.qsr) s.sentinel.entries}")
+  | ["K-digest", "qsr-sentinel"] => some (s, s!"{s.sentinel.deposits.length} {depositsTotal s.sentinel.deposits}")
   | ["K-digest", "htlc"] => some (s, s!"{s.htlc.entries.length} {s.htlc.proxy.length}")
   | ["K-digest", "plasma"] =>
     some (s, s!"{s.plasma.fusions.length} {s.plasma.owed} {s.plasma.fused.length} {total id s.plasma.fused}")
